@@ -57,6 +57,15 @@ type fcallRequest struct {
 	err      chan error
 }
 
+// fcallWrite is a tagged request frame on its way from the owner loop in
+// handle to the goroutine that writes to the channel. err carries the result
+// of a failed write back to the owner loop.
+type fcallWrite struct {
+	req   *fcallRequest
+	fcall *Fcall
+	err   error
+}
+
 func newFcallRequest(ctx context.Context, msg Message) *fcallRequest {
 	return &fcallRequest{
 		ctx:      ctx,
@@ -137,6 +146,16 @@ func (t *transport) handle() {
 		// outstanding provides a map of tags to outstanding requests.
 		outstanding = map[Tag]*fcallRequest{}
 		selected    Tag
+
+		// Requests are written to the channel by a separate goroutine, so
+		// that this loop keeps taking responses while a write is blocked on
+		// the connection. Otherwise a peer that stops reading until its own
+		// writes are consumed (a server loop over an unbuffered connection)
+		// deadlocks with us. pending holds, in order, the frames not yet
+		// handed to the writer; failed returns the frames it could not send.
+		pending []*fcallWrite
+		writes  = make(chan *fcallWrite)
+		failed  = make(chan *fcallWrite)
 	)
 
 	// loop to read messages off of the connection
@@ -184,7 +203,34 @@ func (t *transport) handle() {
 		}
 	}()
 
+	// write requests to the channel, one at a time, in the order queued.
+	go func() {
+		for {
+			select {
+			case w := <-writes:
+				if w.err = t.ch.WriteFcall(w.req.ctx, w.fcall); w.err != nil {
+					select {
+					case failed <- w:
+					case <-t.closed:
+						return
+					}
+				}
+			case <-t.closed:
+				return
+			}
+		}
+	}()
+
 	for {
+		// offer the oldest pending frame to the writer, if there is one.
+		var (
+			out  chan *fcallWrite
+			next *fcallWrite
+		)
+		if len(pending) > 0 {
+			out, next = writes, pending[0]
+		}
+
 		select {
 		case req := <-t.requests:
 			var err error
@@ -196,16 +242,21 @@ func (t *transport) handle() {
 			}
 
 			outstanding[selected] = req
-			fcall := newFcall(selected, req.message)
 
 			// TODO(stevvooe): Consider the case of requests that never
 			// receive a response. We need to remove the fcall context from
 			// the tag map and dealloc the tag. We may also want to send a
 			// flush for the tag.
-			if err := t.ch.WriteFcall(req.ctx, fcall); err != nil {
-				delete(outstanding, fcall.Tag)
-				req.err <- err
+			pending = append(pending, &fcallWrite{req: req, fcall: newFcall(selected, req.message)})
+		case out <- next:
+			pending[0] = nil
+			pending = pending[1:]
+		case w := <-failed:
+			// the frame was not sent: release its tag and fail the call.
+			if outstanding[w.fcall.Tag] == w.req {
+				delete(outstanding, w.fcall.Tag)
 			}
+			w.req.err <- w.err
 		case b := <-responses:
 			req, ok := outstanding[b.Tag]
 			if !ok {
